@@ -333,6 +333,8 @@ func checkC13(c *Check) {
 	c.Rule("R3", "E3 provenance", "hooks are appended in registration order, run by a descending index loop from len-1 to 0, and the runner is called only from the status region", 3)
 	if cb := p.Meth("flamego", "responseWriter", "callBefore"); cb != nil {
 		checkDescendingHookLoop(c, cb, fHooks)
+		// exactly once also when a hook panics and a later operation (Recovery's WriteHeader(500)) tries again
+		checkHooksOnce(c)
 		n := 0
 		for _, fn := range p.Funcs() {
 			for _, ci := range callsNamed(fn, rwT+".callBefore") {
